@@ -15,13 +15,16 @@ EXTENDS PropsAll, Json, IOUtils
 Rec == ndJsonDeserialize(IOEnv.TRACE)
 Tab == Rec[1]
 TabN == Len(Tab.cp)
-TabSet == {Tab.cp[i] : i \in 1..TabN}
-TabIdx == [c \in TabSet |-> CHOOSE i \in 1..TabN : Tab.cp[i] = c]
+\* the harness writes the table sorted by code point: binary search (tables with thousands of random scalars)
+RECURSIVE TabFind(_, _, _)
+TabFind(c, lo, hi) == IF lo >= hi THEN lo
+                      ELSE LET mid == (lo + hi) \div 2 IN IF Tab.cp[mid] < c THEN TabFind(c, mid + 1, hi) ELSE TabFind(c, lo, mid)
+TabPos(c) == TabFind(c, 1, TabN)
 UW == Tab.wmode = "uw"
 
-TraceW(c) == IF UW THEN Tab.w[TabIdx[c]] ELSE CutoffW(c)
-TraceIsAlnum(c) == Tab.an[TabIdx[c]] = 1
-TraceIsWs(c) == Tab.ws[TabIdx[c]] = 1
+TraceW(c) == IF UW THEN Tab.w[TabPos(c)] ELSE CutoffW(c)
+TraceIsAlnum(c) == Tab.an[TabPos(c)] = 1
+TraceIsWs(c) == Tab.ws[TabPos(c)] = 1
 
 VARIABLE l
 
